@@ -10,7 +10,8 @@ from . import bf, pool, tlc
 from .common import NCPU, Report, ToolError, build_harness, build_hpbf_bin, log, seed, workdir
 
 FILES = {"file:A": ("fA", ",.+."), "file:B": ("fB", "++[>+++<-]>."), "file:U": ("fU", "+[.")}
-TEXT = {"code:a": "+++.", "code:b": ",+.", "code:c": ">,[.,]", "code:u": "+[.", "missing": "nope", "junk": "abc",
+TEXT = {"code:a": "+++.", "code:b": ",+.", "code:c": ">,[.,]", "code:u": "+[.", "code:d": "++.[>+<]", "missing": "nope",
+        "junk": "abc",
         "num:0": "0", "num:3": "3", "num:100000": "100000"}
 OPTIONS = ["-i8", "-i16", "-i32", "-i64", "-O0", "-O1", "-O2", "-O3", "-O4", "-O5", "--inplace", "--ir-int",
            "--bc-int", "--base-jit", "--print-ir", "--print-bc", "--print-jit-bc", "--print-jit-mc", "--limit",
@@ -107,7 +108,22 @@ def c16(tier):
     rep.add_tlc(res)
     files4 = [r for r in res.records if "argv" in r and len(r["argv"]) >= 3]
     gen += files4
-    rep.coverage["argv_enumerated"] = {"length_3plus_over_%d_file_tokens" % len(tiny): len(files4),"all_of_length_le_2_over_%d_tokens" % len(tokens_all): exhaustive2,
+    # a divergent program can only come back through --limit: every order of the limit / static / backend flags
+    lim = ["--limit", "num:3", "--static", "code:d", "--bc-int", "--inplace"]
+    tp4 = os.path.join(d, "tokens-limit.ndjson")
+    token_file(lim, tp4)
+    res = tlc.run_tlc("Cli", env={"GEN": 1, "MAXLEN": 4 if tier == "quick" else 5, "TOKENS": tp4, "CASES": "/dev/null"},
+                      workers=8, timeout=1800)
+    rep.add_tlc(res)
+    limited = [r for r in res.records if "argv" in r and "code:d" in r["argv"]
+               and any(x == ["text", "code:d"] for x in r["expected"]["code"])
+               and r["expected"]["limit"] >= 0 and r["expected"]["executes"] == 1]
+    gen += limited
+    # (a vector that runs the divergent fragment without a limit is never executed: it cannot come back)
+    gen = [g for g in gen if not (any(x == ["text", "code:d"] for x in g["expected"]["code"])
+                                  and g["expected"]["executes"] == 1 and g["expected"]["limit"] < 0)]
+    rep.coverage["argv_enumerated"] = {"length_3plus_over_%d_file_tokens" % len(tiny): len(files4),
+                                       "limited_runs_of_a_divergent_program": len(limited),"all_of_length_le_2_over_%d_tokens" % len(tokens_all): exhaustive2,
                                        "length_3plus_over_%d_tokens" % len(small): len(longer)}
     # 2. run the real binary (both profiles)
     scratch = tempfile.mkdtemp(prefix="cli-", dir=d)
